@@ -303,6 +303,8 @@ def emit(fam):
         w("")
 
     # ---- harness instantiations
+    def _ftys0(t):
+        return "".join(f.ty for f in (t.fields if isinstance(t, S) else [f for v in t.variants for f in v.fields]))
     def has_compact(t):
         fs = t.fields if isinstance(t, S) else [f for v in t.variants for f in v.fields]
         return any(f.attr in ("compact", "encoded_as") for f in fs)
@@ -333,6 +335,12 @@ def emit(fam):
             # the type as an ELEMENT of a sequence / array (bulk paths are selected per element type)
             w('#[cfg(feature = "c01")] #[kani::proof] #[kani::unwind(%d)] pub fn c01%s_derived_%s_as_elem_enc() { h_enc::<Vec<%s>, %d>(2); h_enc::<[%s; 2], %d>(2) }' % (2 * u + 2, q, nm, t.name, 2 * n + 4, t.name, 2 * n + 4))
             w('#[cfg(feature = "c02")] #[kani::proof] #[kani::unwind(%d)] pub fn c02%s_derived_%s_as_elem_rt() { h_rt_cnt::<Vec<%s>, %d, 2>(2, None) }' % (2 * u + 2, q, nm, t.name, 2 * n + 6))
+        if not all_skipped and t.maxlen <= 9 and "Vec" not in _ftys0(t):
+            # the same derived type under the properties that compare two runs of the real decoder
+            w('#[cfg(feature = "c19")] #[kani::proof] #[kani::unwind(%d)] pub fn c19%s_derived_%s_counted() { h_counted::<%s, %d>() }' % (u, q, nm, t.name, l))
+            w('#[cfg(feature = "c08")] #[kani::proof] #[kani::unwind(%d)] pub fn c08%s_derived_%s_inputs() { crate::c08_inputs::h_inputs_slim::<%s, %d>() }' % (u, q, nm, t.name, l))
+            if t.maxlen > 0 and not (isinstance(t, E) and any(v.skip for v in t.variants)):
+                w('#[cfg(feature = "c14")] #[kani::proof] #[kani::unwind(%d)] pub fn c14%s_derived_%s_pfx() { h_prefix::<%s, %d>(2) }' % (u, q, nm, t.name, n + 2))
         if not all_skipped and t.maxlen <= 9:
             w('#[cfg(feature = "c18")] #[kani::proof] #[kani::unwind(%d)] pub fn c18%s_derived_%s_skip() { h_skip::<%s, %d>() }' % (u, q, nm, t.name, l))
         if isinstance(t, S) and t.transparent and t.maxlen > 0:
